@@ -11,3 +11,4 @@ from . import format  # noqa: F401
 from . import intersect  # noqa: F401
 from . import traffic  # noqa: F401
 from . import codec  # noqa: F401
+from . import wrappers  # noqa: F401
